@@ -8,7 +8,8 @@
     cmds  = . | cmd{|cmd}     cmd = hexname{.hexarg}
 
     optional: rht=1 (replaceHashTag)  tdb=<n> (TargetDb)  dbmap=<src:dst,…> (TargetDbMap)  fdb=<db,…> (output filter: DB black
-    list)  fpre=<hexprefix,…> (output filter: key prefix black list, reserved prefixes included)  cut=<k> (restart)
+    list)  fpre=<hexprefix,…> (output filter: key prefix black list, reserved prefixes included)  tres=<hexprefix,…> (prefixes also
+    asked of the key an entry is replayed TO: bidirectional loop with replaceHashTag)  cut=<k> (restart)
     — all of them are handed to `runWorkerF` (Model/RestoreWorker.lean), the transcription of the worker loop; the driver maps nothing
 
     c20route tag=<i> n=<workers> [rht=1] [fdb=…] [fpre=…] ents=<entry{;entry}>
@@ -121,12 +122,16 @@ def wcfg (toks : List String) : WCfg :=
   let fpre : List Bytes := match kv toks "fpre" with
     | some m => (m.splitOn ",").filterMap Hex.decode
     | none => []
+  -- rdbReplayBisync with replaceHashTag (/repo f9044ee): the reserved prefixes are also asked of the TARGET key
+  let tres : List Bytes := match kv toks "tres" with
+    | some m => (m.splitOn ",").filterMap Hex.decode
+    | none => []
   { targetDb := match tdb with
       | some t => Int.ofNat t
       | none => -1,
     dbMap := dbmap,
     filterDb := fun d => fdb.contains d,
-    filterKey := fun k => fpre.any (fun p => p.isPrefixOf k),
+    filterKey := fun k => fpre.any (fun p => p.isPrefixOf k) || tres.any (fun p => p.isPrefixOf (stripTag k)),
     rht := (kv toks "rht") == some "1" }
 
 /-- classes of worker indices, numbered by first appearance -/
